@@ -190,6 +190,24 @@ theorem within_resource_limits_items (ke : KeyEnv) (ctx : Ctx) (mall rootHasSig 
     simp [Lift.MAX_SCRIPTSIG_SIZE] at hp
     omega
 
+/-- the Legacy part with the redeem script: the whole scriptSig of the `sh()` spend - the pushes
+of the satisfaction plus the push of the script itself - stays within 1650 bytes (the library
+compared the satisfaction alone before the fix "the Legacy scriptSig size limit accounts for the
+redeem script push"; then this statement was false for 13 x `v:c:pk_h`). -/
+theorem within_resource_limits_p2sh_scriptsig (ke : KeyEnv) (mall rootHasSig : Bool) (a : Assets)
+    (ha : AssetsOk ke .legacy a) (ms : Ms) (hg : good ke .legacy ms = true) (w : List Ph)
+    (h : (satDissat ⟨ke, .legacy, mall, rootHasSig, a⟩ ms).sat.stack = .stack w)
+    (hl : Lift.withinResourceLimits ke .legacy ms = true) :
+    (w.map phSs).sum + scriptSize ke .legacy ms + Lift.pushOpcodeSize (scriptSize ke .legacy ms)
+      ≤ 1650 := by
+  obtain ⟨d, hd, c1, c2, c3⟩ := witness_bounds_partial ke .legacy mall rootHasSig a ha ms hg w h
+  simp only [Lift.withinResourceLimits, Bool.and_eq_true] at hl
+  have hp := hl.2
+  simp only [Lift.localPolicyOk, hd] at hp
+  have := c3 (by decide)
+  simp [Lift.MAX_SCRIPTSIG_SIZE] at hp
+  omega
+
 /-- `validate` under the witness-item limit of `Segwitv0::SANE`: accepted scripts yield at most
 100 witness items (script included) -/
 theorem sane_resource_check_items (ke : KeyEnv) (mall rootHasSig : Bool) (a : Assets)
